@@ -374,3 +374,112 @@ std::vector<std::string> fsync_order_breaches(const Sandbox& sb, const CmdResult
 	}
 	return v;
 }
+
+// ------------------------------------------------------------------ ownership monitor (C13)
+
+OwnershipReport ownership_monitor(const CmdResult& r)
+{
+	OwnershipReport o;
+	unsigned io_max = 0, readers = 0, writers = 0;
+	// per (worker, slot)
+	struct WS { int running = 0; int done_since_sched = 0; int main_owns = 0; int pending_write = 0; int ran_since_wnext = 0; };
+	std::map<std::pair<int, int>, WS> ws;
+	int main_slot = -1;          // slot main is consuming (between io_read_next exit and the next enter)
+	int compute_slot = -1;       // slot whose parity buffers main is filling (until it hands them to the writers)
+	bool active = false;
+	int64_t last_pos = -1;
+	std::map<int, int> running_by_tid; // worker -> slot currently running
+	for (auto& e : r.trace) {
+		switch (e.kind) {
+		case EV_IO_START:
+			io_max = (unsigned)e.off; readers = (unsigned)e.len; writers = (unsigned)e.res;
+			o.io_max = io_max;
+			o.threaded = io_max > 1;
+			o.had_events = true;
+			active = true;
+			ws.clear();
+			main_slot = -1;
+			last_pos = -1;
+			break;
+		case EV_IO_STOP:
+			if (e.off == 1) {
+				// all threads joined: nothing may be running
+				for (auto& kv : ws) if (kv.second.running) o.breaches.push_back(strf("worker %d still inside its callback on slot %d after io_stop", kv.first.first, kv.first.second));
+				active = false;
+			}
+			break;
+		case EV_IO_NEXT:
+			if (!active) break;
+			if (e.off < 0) {
+				// enter: main releases the slot it was consuming
+				if (main_slot >= 0) for (auto& kv : ws) if (kv.first.second == main_slot) kv.second.main_owns = 0;
+				main_slot = -1;
+				compute_slot = -1;
+			} else {
+				main_slot = (int)e.off;
+				compute_slot = main_slot;
+				if ((int64_t)e.len <= last_pos && !(e.len >= 0xffffffffu)) o.breaches.push_back(strf("io_read_next returned position %lld after %lld: not in increasing order", (long long)e.len, (long long)last_pos));
+				last_pos = (int64_t)e.len;
+				o.positions.push_back((uint32_t)e.len);
+				if (o.threaded) {
+					// the parity buffers of this slot are about to be recomputed: no writer may still use them
+					for (unsigned w = readers; w < readers + writers; ++w) {
+						WS& s = ws[{ (int)w, main_slot }];
+						if (s.running) o.breaches.push_back(strf("main got slot %d for position %lld while writer %u is still writing from its buffer", main_slot, (long long)e.len, w));
+						if (s.pending_write) o.breaches.push_back(strf("main got slot %d for position %lld while the write scheduled on it for writer %u has not run", main_slot, (long long)e.len, w));
+					}
+				}
+			}
+			break;
+		case EV_IO_GOT_DATA:
+		case EV_IO_GOT_PARITY: {
+			if (!active || !o.threaded) break;
+			int w = (int)e.off, s = (int)e.len;
+			WS& st = ws[{ w, s }];
+			if (st.running) o.breaches.push_back(strf("main received the task of reader %d slot %d while the reader is still inside its callback", w, s));
+			if (main_slot >= 0 && s != main_slot) o.breaches.push_back(strf("main received a task of slot %d while consuming slot %d", s, main_slot));
+			st.main_owns = 1;
+			st.done_since_sched = 0;
+			break;
+		}
+		case EV_IO_WNEXT: {
+			if (!active || !o.threaded) break;
+			int s = (int)e.off;
+			if (e.aux == 1) {
+				compute_slot = -1;
+				if (e.res == 0) for (unsigned w = readers; w < readers + writers; ++w) { ws[{ (int)w, s }].pending_write = 1; }
+			}
+			break;
+		}
+		case EV_W_BEGIN: {
+			if (!active) break;
+			++o.worker_tasks;
+			if (!o.threaded) break;
+			int w = (int)e.off, s = (int)e.len;
+			WS& st = ws[{ w, s }];
+			if (st.running) o.breaches.push_back(strf("worker %d entered its callback twice on slot %d", w, s));
+			if ((unsigned)w < readers) {
+				if (st.main_owns) o.breaches.push_back(strf("reader %d starts reading into slot %d (position %lld) while the computing thread still uses that buffer", w, s, (long long)e.res));
+				if (st.done_since_sched) o.breaches.push_back(strf("reader %d ran twice on slot %d before the caller consumed it", w, s));
+			} else {
+				if (!st.pending_write) o.breaches.push_back(strf("writer %d writes slot %d (position %lld) that was not scheduled", w, s, (long long)e.res));
+				if (compute_slot == s) o.breaches.push_back(strf("writer %d writes from slot %d while the computing thread is filling it", w, s));
+			}
+			st.running = 1;
+			running_by_tid[w] = s;
+			break;
+		}
+		case EV_W_END: {
+			if (!active || !o.threaded) break;
+			int w = (int)e.off, s = (int)e.len;
+			WS& st = ws[{ w, s }];
+			if (!st.running) o.breaches.push_back(strf("worker %d left a callback it never entered on slot %d", w, s));
+			st.running = 0;
+			if ((unsigned)w < readers) st.done_since_sched = 1;
+			else st.pending_write = 0;
+			break;
+		}
+		}
+	}
+	return o;
+}
